@@ -43,8 +43,10 @@ def f32(x: float) -> float:
 FLOAT_ALPHA = [0.0, 1.5, -1.5, f32(0.1), F32_MAX, F32_DENORM, math.inf, -math.inf, math.nan]
 DOUBLE_ALPHA = [0.0, 1.5, -1.5, 0.1, F32_MAX, 5e-324, 1.7976931348623157e308,
                 math.inf, -math.inf, math.nan]
-STRING_ALPHA = ["", "a", "é", "\U0001F600", "\x00", "x" * 128]
-BYTES_ALPHA = [b"", b"\x00", b"\xff\xfe", bytes(range(128))]
+STRING_ALPHA = ["", "a", "é", "\U0001F600", "\x00", "x" * 128,
+                "y" * 125, "y" * 126, "y" * 127, "y" * 129, "z" * 16381, "z" * 16382, "z" * 16383, "z" * 16384]
+BYTES_ALPHA = [b"", b"\x00", b"\xff\xfe", bytes(range(128)),
+               bytes(125), bytes(126), bytes(127), bytes(129), bytes(16382), bytes(16383)]
 ENUM_DEFINED = [0, 1, -1, 2**31 - 1, -(2**31)]
 ENUM_UNDEFINED = [7, -5]
 TS_ALPHA = [
